@@ -8,7 +8,7 @@ Code side  : every behaviour / attack schedule is imposed on the real stack thro
              harness (locker wrapper + Store hooks); the invoke/response history and final export are
              validated by TLC against AtomicTrace.tla (layer P: linearizable w.r.t. the sequential rules);
              a deadlock is established from logged lock ownership (all live requests blocked on held locks)."""
-import json, os, random, re, time
+import sys, json, os, random, re, time
 from vlib import *
 import seqfamily
 
@@ -344,7 +344,9 @@ def drive(scenarios, wd, tag="conc"):
             last = [e["sc"] for e in events if e["ev"] == "Begin"][-1]
             evs = by[last]
             sch = [e for e in evs if e["ev"] in ("Sched", "Watchdog")]
-            if sch and (sch[-1].get("deadlock") or sch[-1].get("goroutines_in_mutex_lock", 0) >= 2):
+            if os.environ.get("VERIF_DEBUG"):
+                print("watchdog:", last, sch[-1:], err[-3000:], file=sys.stderr)
+            if sch and (sch[-1].get("deadlock") or sch[-1].get("goroutines_in_mutex_lock", 0) >= 2 or sch[-1].get("waiting_in_dirk")):
                 deadlocks.append((last, evs))
             else:
                 # the watchdog fired without evidence of requests blocked on each other: on a loaded machine a schedule step can
@@ -359,7 +361,7 @@ def drive(scenarios, wd, tag="conc"):
                         settled = True
                         break
                     sch2 = [e for e in by2.get(last, []) if e["ev"] in ("Sched", "Watchdog")]
-                    if rc2 == 3 and sch2 and (sch2[-1].get("deadlock") or sch2[-1].get("goroutines_in_mutex_lock", 0) >= 2):
+                    if rc2 == 3 and sch2 and (sch2[-1].get("deadlock") or sch2[-1].get("goroutines_in_mutex_lock", 0) >= 2 or sch2[-1].get("waiting_in_dirk")):
                         deadlocks.append((last, by2[last]))
                         settled = True
                         break
@@ -500,6 +502,9 @@ def run(prop, tier, seed):
             for sid, evs in deadlocks:
                 sc = [s for s in scenarios if s["id"] == sid][0]
                 blocked = [e for e in evs if e["ev"] == "Blocked"]
+                wd_ = [e for e in evs if e["ev"] == "Watchdog" and e.get("waiting_in_dirk")]
+                if wd_ and not blocked:
+                    blocked = ["goroutines of requests blocked for good inside the repository's code: %s" % wd_[-1]["waiting_in_dirk"][:6]]
                 verdict.violation("deadlock:" + sid, "requests wait on each other for ever in scenario %s: %s" % (sid, blocked[-4:]),
                                   dict(scenario=sc, trace=evs[-60:]))
         else:
@@ -640,6 +645,7 @@ def replay(prop, path):
             print(json.dumps(e))
         if prop == "C15" or obj.get("deadlock"):
             dead = any(e["ev"] == "Sched" and e["deadlock"] for e in events)
+            dead = dead or (rc == 3 and any(e["ev"] == "Watchdog" and (e.get("goroutines_in_mutex_lock", 0) >= 2 or e.get("waiting_in_dirk")) for e in events))
             if dead:
                 print("VIOLATION property=%s replay=%s" % (prop, path))
                 return 1
